@@ -14,12 +14,15 @@ Local Open Scope Z_scope.
 
 Ltac zbool :=
   repeat match goal with
-  | |- context [(?a <=? ?b)%Z] => destruct (Z.leb_spec a b); try lia
-  | |- context [(?a <? ?b)%Z] => destruct (Z.ltb_spec a b); try lia
+  | |- context [(?a <=? ?b)%Z] => destruct (Z.leb_spec a b); try (cbn [List.length] in *; lia)
+  | |- context [(?a <? ?b)%Z] => destruct (Z.ltb_spec a b); try (cbn [List.length] in *; lia)
   | |- context [(?a >=? ?b)%Z] => rewrite (Z.geb_leb a b)
   | |- context [(?a >? ?b)%Z] => rewrite (Z.gtb_ltb a b)
   | |- context [(?a =? ?b)%Z] => destruct (Z.eqb_spec a b); try lia
   end.
+
+(* arithmetic on lengths of concatenations *)
+Ltac len_lia := repeat (rewrite ?app_length; cbn [List.length]); lia.
 
 (* ---- the byte tests and conversions: all 256 bytes *)
 Ltac all_bytes b := destruct b as [[] [] [] [] [] [] [] []]; vm_compute; reflexivity.
@@ -53,7 +56,7 @@ Lemma ToPascalCase_loop_bridge : forall str todo done,
 Proof.
   intros str todo. induction todo as [|p todo IH]; intros done.
   - cbn [ToPascalCase_loop1 List.length map]. rewrite app_nil_r. zbool. reflexivity.
-  - cbn [ToPascalCase_loop1]. rewrite app_length. cbn [List.length]. zbool.
+  - rewrite app_length. cbn [List.length]. cbn [ToPascalCase_loop1]. zbool.
     rewrite go_index_app_mid.
     assert (Hnext : forall q, ToPascalCase_loop1 str (Z.of_nat (List.length done + S (List.length todo))) (List.length todo)
                        (Z.of_nat (List.length done) + 1) (done ++ q :: todo) tt
@@ -75,10 +78,301 @@ Theorem ToPascalCase_is_model : forall s,
   ToPascalCase s tt = (Returned (to_pascal_case s), tt).
 Proof.
   intros s. unfold ToPascalCase, to_pascal_case. destruct s as [|c r]; [reflexivity|].
-  rewrite str_len_cons. pose proof (str_len_nonneg r). zbool.
+  rewrite ?str_len_cons. pose proof (str_len_nonneg r). cbn [String.eqb]. zbool.
   unfold go_split.
   match goal with |- ToPascalCase_loop1 _ _ ?f _ _ _ = _ =>
     replace f with (List.length (split_c "_" (String c r))) by lia end.
   change 0 with (Z.of_nat (@List.length string [])).
   exact (ToPascalCase_loop_bridge (String c r) (split_c "_" (String c r)) []).
 Qed.
+
+(* ---- splitCamelTokensASCII.  State of the loop at index i: the string is
+   p1 ++ (q ++ [prev]) ++ rest with |p1| = start and |p1| + |q| + 1 = i; the model's
+   accumulator is rev (q ++ [prev]) *)
+Lemma nth_error_split3 : forall {A} (a b c : list A) x,
+  nth_error (a ++ b ++ x :: c) (List.length a + List.length b) = Some x.
+Proof. intros. rewrite app_assoc, <- app_length. apply nth_error_app_mid. Qed.
+
+Lemma split_loop_bridge : forall rest p1 q prev tokens,
+  splitCamelTokensASCII_loop1 (string_of_list (p1 ++ (q ++ [prev]) ++ rest)) (List.length rest)
+      (Z.of_nat (List.length p1 + List.length q + 1)) tokens (Z.of_nat (List.length p1)) tt
+  = (Returned (tokens ++ map string_of_list (split_camel_aux prev rest (prev :: rev q))), tt).
+Proof.
+  induction rest as [|c rest IH]; intros p1 q prev tokens.
+  - (* the end of the string: the last token *)
+    cbn [splitCamelTokensASCII_loop1 List.length split_camel_aux map].
+    rewrite str_len_sol, !app_length, app_nil_r. cbn [List.length]. zbool.
+    unfold splitCamelTokensASCII_after1. rewrite str_len_sol.
+    replace (Z.of_nat (List.length (p1 ++ q ++ [prev]))) with (Z.of_nat (List.length p1 + (List.length q + 1)))
+      by len_lia.
+    rewrite str_slice_sol by len_lia.
+    rewrite skipn_app, skipn_all, Nat.sub_diag. cbn [skipn app].
+    rewrite firstn_all2 by len_lia.
+    cbn [rev]. rewrite rev_involutive. reflexivity.
+  - (* facts that do not depend on what follows c *)
+    assert (Hi : str_get (string_of_list (p1 ++ (q ++ [prev]) ++ c :: rest)) (Z.of_nat (List.length p1 + List.length q + 1)) = Some c).
+    { rewrite str_get_sol. replace (List.length p1 + List.length q + 1)%nat with (List.length p1 + List.length (q ++ [prev]))%nat
+        by len_lia. apply nth_error_split3. }
+    assert (Hp : str_get (string_of_list (p1 ++ (q ++ [prev]) ++ c :: rest)) (Z.of_nat (List.length p1 + List.length q + 1) - 1) = Some prev).
+    { replace (Z.of_nat (List.length p1 + List.length q + 1) - 1) with (Z.of_nat (List.length p1 + List.length q)) by lia.
+      rewrite str_get_sol. rewrite <- (app_assoc q [prev]). cbn [app]. apply nth_error_split3. }
+    (* what the next iteration starts from: after a cut, and without one *)
+    assert (Hcut : forall tk,
+      splitCamelTokensASCII_loop1 (string_of_list (p1 ++ (q ++ [prev]) ++ c :: rest)) (List.length rest)
+        (Z.of_nat (List.length p1 + List.length q + 1) + 1) tk (Z.of_nat (List.length p1 + List.length q + 1)) tt
+      = (Returned (tk ++ map string_of_list (split_camel_aux c rest [c])), tt)).
+    { intros tk. specialize (IH (p1 ++ q ++ [prev]) [] c tk). cbn [app List.length rev] in IH.
+      rewrite <- !app_assoc in IH. cbn [app] in IH. rewrite <- !app_assoc. cbn [app].
+      rewrite !app_length in IH. cbn [List.length] in IH.
+      replace (Z.of_nat (List.length p1 + (List.length q + 1) + 0 + 1)) with (Z.of_nat (List.length p1 + List.length q + 1) + 1) in IH by lia.
+      replace (Z.of_nat (List.length p1 + (List.length q + 1))) with (Z.of_nat (List.length p1 + List.length q + 1)) in IH by lia.
+      exact IH. }
+    assert (Hkeep : forall tk,
+      splitCamelTokensASCII_loop1 (string_of_list (p1 ++ (q ++ [prev]) ++ c :: rest)) (List.length rest)
+        (Z.of_nat (List.length p1 + List.length q + 1) + 1) tk (Z.of_nat (List.length p1)) tt
+      = (Returned (tk ++ map string_of_list (split_camel_aux c rest (c :: prev :: rev q))), tt)).
+    { intros tk. specialize (IH p1 (q ++ [prev]) c tk). rewrite rev_app_distr in IH. cbn [rev app] in IH.
+      rewrite <- !app_assoc in IH. cbn [app] in IH. rewrite <- !app_assoc. cbn [app].
+      rewrite !app_length in IH. cbn [List.length] in IH.
+      replace (Z.of_nat (List.length p1 + (List.length q + 1) + 1)) with (Z.of_nat (List.length p1 + List.length q + 1) + 1) in IH by lia.
+      exact IH. }
+    assert (Hslice : str_slice (string_of_list (p1 ++ (q ++ [prev]) ++ c :: rest)) (Z.of_nat (List.length p1))
+                       (Z.of_nat (List.length p1 + List.length q + 1)) = Some (string_of_list (q ++ [prev]))).
+    { rewrite str_slice_sol by len_lia.
+      rewrite skipn_app, skipn_all, Nat.sub_diag. cbn [skipn app].
+      replace (List.length p1 + List.length q + 1 - List.length p1)%nat with (List.length (q ++ [prev])) by len_lia.
+      rewrite firstn_app, firstn_all, Nat.sub_diag. cbn [firstn]. rewrite app_nil_r. reflexivity. }
+    assert (Hmodel_cut : rev (prev :: rev q) = q ++ [prev]) by (cbn [rev]; rewrite rev_involutive; reflexivity).
+    (* the byte after c, if any *)
+    assert (Hn : forall d rest', rest = d :: rest' ->
+       str_get (string_of_list (p1 ++ (q ++ [prev]) ++ c :: rest)) (Z.of_nat (List.length p1 + List.length q + 1) + 1) = Some d).
+    { intros d rest' ->.
+      replace (Z.of_nat (List.length p1 + List.length q + 1) + 1) with (Z.of_nat (List.length p1 + List.length ((q ++ [prev]) ++ [c]))) by len_lia.
+      rewrite str_get_sol. replace (p1 ++ (q ++ [prev]) ++ c :: d :: rest') with (p1 ++ ((q ++ [prev]) ++ [c]) ++ d :: rest') by (rewrite <- !app_assoc; reflexivity).
+      apply nth_error_split3. }
+    cbn [splitCamelTokensASCII_loop1 List.length split_camel_aux].
+    rewrite str_len_sol, Hi, Hp, IsUpper_is_model, IsLower_is_model.
+    destruct rest as [|d rest'];
+      [| rewrite (Hn d rest' eq_refl), IsLower_is_model ];
+      repeat (rewrite ?app_length; cbn [List.length]); zbool;
+      destruct (is_upper c); cbn [andb]; destruct (is_lower prev); cbn [orb];
+      try destruct (is_lower d);
+      rewrite ?Hslice, ?Hcut, ?Hkeep; cbn [map]; rewrite ?Hmodel_cut, <- ?app_assoc; reflexivity.
+Qed.
+
+Theorem splitCamelTokensASCII_is_model : forall s,
+  splitCamelTokensASCII s tt = (Returned (split_camel_tokens s), tt).
+Proof.
+  intros s. unfold splitCamelTokensASCII, split_camel_tokens.
+  rewrite <- (sol_los s) at 1 2 3. rewrite str_len_sol.
+  destruct (list_of_string s) as [|c rest] eqn:Hl.
+  - reflexivity.
+  - cbn [List.length].
+    replace (Z.to_nat (Z.of_nat (S (List.length rest)) - 1)) with (List.length rest) by lia.
+    rewrite los_sol. exact (split_loop_bridge rest [] [] c []).
+Qed.
+
+(* ---- ToCamelCase: token i becomes camel_token i of it *)
+Lemma camel_token_by_slices : forall n c d r,
+  (upper (String c "") ++ lower (String d r))%string = camel_token (S n) (String c (String d r)).
+Proof. reflexivity. Qed.
+
+Lemma camel_token_pos : forall n t, n <> 0%nat -> camel_token n t = camel_token 1 t.
+Proof. intros [|n] t H; [contradiction | reflexivity]. Qed.
+
+Lemma ToCamelCase_loop_bridge : forall str todo done,
+  ToCamelCase_loop1 str (Z.of_nat (List.length (done ++ todo))) (List.length todo)
+                    (Z.of_nat (List.length done)) (done ++ todo) tt
+  = (Returned (join "" (done ++ mapi_aux camel_token (List.length done) todo)), tt).
+Proof.
+  intros str todo. induction todo as [|p todo IH]; intros done.
+  - cbn [ToCamelCase_loop1 List.length mapi_aux]. rewrite app_nil_r. zbool. reflexivity.
+  - rewrite app_length. cbn [List.length]. cbn [ToCamelCase_loop1 mapi_aux]. zbool.
+    all: rewrite ?go_index_app_mid.
+    all: assert (Hnext : forall q, ToCamelCase_loop1 str (Z.of_nat (List.length done + S (List.length todo))) (List.length todo)
+                       (Z.of_nat (List.length done) + 1) (done ++ q :: todo) tt
+                     = (Returned (join "" (done ++ q :: mapi_aux camel_token (S (List.length done)) todo)), tt))
+      by (intros q; specialize (IH (done ++ [q])); rewrite <- !app_assoc in IH; cbn [app] in IH;
+          rewrite !app_length in IH; cbn [List.length] in IH;
+          replace (Z.of_nat (List.length done + 1)) with (Z.of_nat (List.length done) + 1) in IH by lia;
+          replace (List.length done + 1 + List.length todo)%nat with (List.length done + S (List.length todo))%nat in IH by lia;
+          replace (List.length done + 1)%nat with (S (List.length done)) in IH by lia; exact IH).
+    + (* the first token *)
+      assert (done = []) by (destruct done; [reflexivity | cbn [List.length] in *; lia]). subst done.
+      rewrite (list_set_app_mid (@nil string)). apply Hnext.
+    + (* a later token *)
+      assert (Hpos : List.length done <> 0%nat) by lia.
+      rewrite (camel_token_pos _ p Hpos).
+      destruct p as [|c [|d r]].
+      * cbn [str_len String.length Z.of_nat]. zbool. rewrite list_set_app_mid. apply Hnext.
+      * rewrite !str_len_cons, str_len_empty. zbool. rewrite list_set_app_mid. apply Hnext.
+      * assert (Hlen : 1 < str_len (String c (String d r)))
+          by (rewrite !str_len_cons; pose proof (str_len_nonneg r); lia).
+        zbool. rewrite str_slice_first, str_slice_tail, list_set_app_mid.
+        rewrite (camel_token_by_slices 0). apply Hnext.
+Qed.
+
+Theorem ToCamelCase_is_model : forall s,
+  ToCamelCase s tt = (Returned (to_camel_case s), tt).
+Proof.
+  intros s. unfold ToCamelCase, to_camel_case. destruct s as [|c r]; [reflexivity|].
+  rewrite ?str_len_cons. pose proof (str_len_nonneg r). cbn [String.eqb]. zbool.
+  rewrite ToPascalCase_is_model, splitCamelTokensASCII_is_model.
+  match goal with |- ToCamelCase_loop1 _ _ ?f _ _ _ = _ =>
+    replace f with (List.length (split_camel_tokens (to_pascal_case (String c r)))) by lia end.
+  change 0 with (Z.of_nat (@List.length string [])).
+  exact (ToCamelCase_loop_bridge _ (split_camel_tokens (to_pascal_case (String c r))) []).
+Qed.
+
+(* ---- ToCamelCaseGO *)
+(* the scan over the leading upper-case bytes *)
+Lemma ToCamelCaseGO_loop_bridge : forall str rest pre,
+  ToCamelCaseGO_loop1 str (string_of_list (pre ++ rest)) (List.length rest) (Z.of_nat (List.length pre)) tt
+  = ToCamelCaseGO_after1 str (string_of_list (pre ++ rest)) (Z.of_nat (List.length pre + leading_upper rest)) tt.
+Proof.
+  intros str rest. induction rest as [|c rest IH]; intros pre.
+  - cbn [ToCamelCaseGO_loop1 List.length leading_upper]. rewrite str_len_sol, app_nil_r, Nat.add_0_r. zbool. reflexivity.
+  - cbn [ToCamelCaseGO_loop1 List.length leading_upper]. rewrite str_len_sol, app_length. cbn [List.length]. zbool.
+    rewrite str_get_sol, nth_error_app_mid, IsUpper_is_model.
+    destruct (is_upper c).
+    + specialize (IH (pre ++ [c])). rewrite <- app_assoc in IH. cbn [app] in IH.
+      rewrite app_length in IH. cbn [List.length] in IH.
+      replace (Z.of_nat (List.length pre + 1)) with (Z.of_nat (List.length pre) + 1) in IH by lia.
+      rewrite IH. f_equal. lia.
+    + rewrite Nat.add_0_r. reflexivity.
+Qed.
+
+Lemma leading_upper_le : forall l, (leading_upper l <= List.length l)%nat.
+Proof. induction l as [|c l IH]; simpl; [lia|]. destruct (is_upper c); lia. Qed.
+
+Lemma skipn_nth : forall {A} n (l : list A) b, nth_error l n = Some b -> skipn n l = b :: skipn (S n) l.
+Proof.
+  intros A n. induction n as [|n IHn]; intros [|x l] b H; simpl in *; try discriminate.
+  - inversion H; reflexivity.
+  - apply IHn; assumption.
+Qed.
+
+(* what happens after the scan, for a non-empty string *)
+Lemma ToCamelCaseGO_after_bridge : forall str c r,
+  let l := c :: r in
+  ToCamelCaseGO_after1 str (string_of_list l) (Z.of_nat (leading_upper l)) tt
+  = (Returned (if Nat.leb (leading_upper l) 1 then first_lower (string_of_list l)
+               else string_of_list (map to_lower_c (firstn (leading_upper l - 1) l) ++ skipn (leading_upper l - 1) l)), tt).
+Proof.
+  intros str c r l. unfold ToCamelCaseGO_after1.
+  pose proof (leading_upper_le l) as Hle. set (k := leading_upper l) in *.
+  destruct (Nat.leb_spec k 1) as [Hk|Hk].
+  - zbool. subst l. cbn [string_of_list]. rewrite str_get_first, str_set_first, ToLower_is_model. reflexivity.
+  - zbool.
+    (* bytes[:k-1], bytes[k-1], bytes[k:] *)
+    replace 0 with (Z.of_nat 0) by reflexivity.
+    replace (Z.of_nat k - 1) with (Z.of_nat (k - 1)) by lia.
+    rewrite str_slice_sol by lia. rewrite str_get_sol, str_len_sol, str_slice_sol by lia.
+    cbn [skipn]. rewrite Nat.sub_0_r.
+    destruct (nth_error l (k - 1)) as [b|] eqn:Hb; [|apply nth_error_None in Hb; lia].
+    assert (Hfa : firstn (List.length l - k) (skipn k l) = skipn k l)
+      by (apply firstn_all2; rewrite skipn_length; lia).
+    rewrite Hfa, lower_sol. f_equal. f_equal.
+    change (String b "") with (string_of_list [b]).
+    rewrite <- !sol_app. f_equal. rewrite <- app_assoc. f_equal. cbn [app].
+    (* skipn (k-1) l = b :: skipn k l *)
+    rewrite (skipn_nth (k - 1) l b Hb). replace (S (k - 1)) with k by lia. reflexivity.
+Qed.
+
+(* a string whose Pascal form is empty consists of underscores only, hence equals its upper-case form *)
+Fixpoint all_underscore (s : string) : bool :=
+  match s with
+  | EmptyString => true
+  | String c r => Ascii.eqb c "_" && all_underscore r
+  end.
+
+Lemma join_map_first_upper_nil : forall s cur pre,
+  (forall x, cur x = (pre ++ x)%string) ->
+  join "" (map first_upper (split_c_aux "_" s cur)) = ""%string -> pre = ""%string /\ all_underscore s = true.
+Proof.
+  induction s as [|c s IH]; intros cur pre Hcur H; cbn [split_c_aux] in H.
+  - rewrite Hcur, sapp_nil_r in H. cbn [map] in H. rewrite join_empty_cons in H.
+    destruct pre; [auto | discriminate].
+  - cbn [all_underscore]. destruct (Ascii.eqb_spec c "_") as [->|Hne].
+    + cbn [map] in H. rewrite join_empty_cons, Hcur, sapp_nil_r in H.
+      destruct pre as [|p0 pre]; [|discriminate]. cbn [first_upper append] in H.
+      destruct (IH (fun x => x) ""%string (fun x => eq_refl) H) as [_ Hs]. auto.
+    + exfalso.
+      destruct (IH (fun x => cur (String c x)) (pre ++ String c "")%string) as [Hp _].
+      * intros x. rewrite Hcur, sapp_assoc. reflexivity.
+      * exact H.
+      * destruct pre; discriminate.
+Qed.
+
+Lemma all_underscore_upper : forall s, all_underscore s = true -> upper s = s.
+Proof.
+  induction s as [|c s IH]; simpl; intros H; [reflexivity|].
+  apply andb_true_iff in H as [Hc Hs]. apply Ascii.eqb_eq in Hc. subst c.
+  unfold upper in *. simpl. rewrite IH by assumption. reflexivity.
+Qed.
+
+Lemma pascal_empty_is_upper : forall s, to_pascal_case s = ""%string -> String.eqb s (upper s) = true.
+Proof.
+  intros [|c r] H; [reflexivity|]. unfold to_pascal_case, split_c in H.
+  destruct (join_map_first_upper_nil (String c r) (fun x => x) ""%string (fun x => eq_refl) H) as [_ Hu].
+  rewrite (all_underscore_upper _ Hu). apply String.eqb_refl.
+Qed.
+
+Theorem ToCamelCaseGO_is_model : forall s,
+  ToCamelCaseGO s tt = (Returned (to_camel_case_go s), tt).
+Proof.
+  intros s. unfold ToCamelCaseGO, to_camel_case_go. destruct s as [|c r]; [reflexivity|].
+  rewrite ?str_len_cons. pose proof (str_len_nonneg r). zbool.
+  destruct (String.eqb (String c r) (upper (String c r))) eqn:Hup; [reflexivity|].
+  rewrite ToPascalCase_is_model.
+  set (p := to_pascal_case (String c r)).
+  assert (Hp : p <> ""%string).
+  { intros Hp. apply pascal_empty_is_upper in Hp. congruence. }
+  rewrite <- (sol_los p) at 1 2 3. rewrite str_len_sol.
+  destruct (list_of_string p) as [|b l] eqn:Hl.
+  { exfalso. apply Hp. rewrite <- (sol_los p), Hl. reflexivity. }
+  replace (Z.to_nat (Z.of_nat (List.length (b :: l)) - 0)) with (List.length (b :: l)) by lia.
+  change 0 with (Z.of_nat (@List.length ascii [])).
+  rewrite (ToCamelCaseGO_loop_bridge _ (b :: l) []). cbn [app List.length Nat.add].
+  rewrite (ToCamelCaseGO_after_bridge _ b l).
+  rewrite <- Hl, sol_los. reflexivity.
+Qed.
+
+(* ---- mapper/match.go smartMatch *)
+Theorem smartMatch_is_model : forall a b,
+  smartMatch a b tt = (Returned (smart_match a b), tt).
+Proof.
+  intros a b. unfold smartMatch, smart_match, str_len.
+  rewrite ?ToCamelCase_is_model.
+  destruct (Nat.eqb_spec (String.length a) (String.length b)) as [He|Hne];
+    destruct (String.eqb_spec a b) as [Hab|Hab];
+    rewrite ?He; zbool; cbn [negb]; try reflexivity; try lia; subst; contradiction.
+Qed.
+
+(* ------------------------------------------------------------------ *)
+(* facts of Proofs/TransferProofs.v over the translated source, and totality *)
+From Shoot Require Import Proofs.TransferProofs.
+
+Theorem transfer_src_always_returns : forall s a b,
+  fst (FirstLowerLetter s tt) = Returned (first_lower_letter s) /\
+  fst (ToPascalCase s tt) = Returned (to_pascal_case s) /\
+  fst (splitCamelTokensASCII s tt) = Returned (split_camel_tokens s) /\
+  fst (ToCamelCase s tt) = Returned (to_camel_case s) /\
+  fst (ToCamelCaseGO s tt) = Returned (to_camel_case_go s) /\
+  fst (smartMatch a b tt) = Returned (smart_match a b).
+Proof.
+  intros. rewrite FirstLowerLetter_is_model, ToPascalCase_is_model, splitCamelTokensASCII_is_model,
+    ToCamelCase_is_model, ToCamelCaseGO_is_model, smartMatch_is_model. repeat split; reflexivity.
+Qed.
+
+Theorem smartMatch_src_reflexive : forall a, smartMatch a a tt = (Returned true, tt).
+Proof. intros. rewrite smartMatch_is_model, smart_match_refl. reflexivity. Qed.
+
+Theorem smartMatch_src_symmetric : forall a b, smartMatch a b tt = smartMatch b a tt.
+Proof. intros. rewrite !smartMatch_is_model, smart_match_sym. reflexivity. Qed.
+
+Print Assumptions ToPascalCase_is_model.
+Print Assumptions splitCamelTokensASCII_is_model.
+Print Assumptions ToCamelCase_is_model.
+Print Assumptions ToCamelCaseGO_is_model.
+Print Assumptions smartMatch_is_model.
